@@ -26,6 +26,7 @@ ListInt = _Ty('ListInt')        # mutable list of ints
 ListByte = _Ty('ListByte')      # mutable list of ints in 0..255
 Str = _Ty('Str')                # str, any code points
 Latin1 = _Ty('Latin1')          # str with code points 0..255
+IntSeq = _Ty('IntSeq')          # any sequence of ints as an immutable view: bytes, bytearray or list of ints
 SeqInt = _Ty('SeqInt')          # immutable sequence of ints (spec level)
 SeqBytes = _Ty('SeqBytes')      # immutable sequence of byte strings (spec level)
 SeqStr = _Ty('SeqStr')
